@@ -39,6 +39,9 @@ RANDOM_OPTS = {'cmp_chain': False}
 GEN_OPTS: dict = _json.loads(os.environ.get('VF_C01_OPTS', '{}'))
 SKIP_GROUPING = os.environ.get('VF_C01_SKIP_GROUPING') == '1'
 
+# committed witness of the open finding range-bound-reevaluated-each-iteration (vf.gen.typed keeps range_bound_mutation off)
+WITNESS_RANGE_BOUND = 'def bound(n: int) -> int:\n\tc = n\n\tt = 0\n\tfor i in range(c):\n\t\tc += 1\n\t\tt += 1\n\t\tif t > 50:\n\t\t\tbreak\n\treturn t\n'
+
 _SESSION = None
 
 
@@ -203,7 +206,9 @@ def c_style_value(expr: str, env: dict):
 		if isinstance(n, ast.IfExp):
 			return ev(n.body) if ev(n.test) else ev(n.orelse)
 		if isinstance(n, ast.BinOp):
-			return eval(compile(ast.Expression(ast.BinOp(ast.Constant(ev(n.left)), n.op, ast.Constant(ev(n.right)))), '<c>', 'eval'))  # noqa: S307
+			binop = {ast.Add: op.add, ast.Sub: op.sub, ast.Mult: op.mul, ast.Mod: op.mod, ast.BitAnd: op.and_, ast.BitOr: op.or_, ast.BitXor: op.xor,
+				ast.LShift: op.lshift, ast.RShift: op.rshift, ast.FloorDiv: op.floordiv, ast.Div: op.truediv}
+			return binop[type(n.op)](ev(n.left), ev(n.right))
 		if isinstance(n, ast.Name):
 			return env[n.id]
 		if isinstance(n, ast.Constant):
@@ -226,6 +231,11 @@ def classify(v: dict) -> str | None:
 	if v['kind'] != 'value-differs':
 		return None
 	d = v['detail']
+	# Open finding 'range-bound-reevaluated-each-iteration': `for i in range(c)` is emitted as `for (auto i = 0; i < c; i += 1)`, so a body
+	# that changes what the bound mentions changes the trip count. Matched only on the committed witness and only on the value that
+	# re-evaluation yields there (51 trips instead of n).
+	if v['case'].get('kind') == 'witness-range-bound':
+		return 'range-bound-reevaluated-each-iteration' if re.match(r"bound\(\d+,\): CPython -> 'ok\\t\d+', C\+\+ -> 'ok\\t51'", d) else None
 	m = re.search(r'expression: (.*?)\]', d)
 	mv = re.match(r"\w+\((-?\d+), (-?\d+), (-?\d+)\): CPython -> 'ok\\t(\w+)', C\+\+ -> 'ok\\t(\w+)'", d)
 	if not m or not mv:
@@ -266,6 +276,10 @@ def shard(ctx: Ctx, acc: Acc) -> None:
 			if gi % ctx.nshards == ctx.shard and not SKIP_GROUPING:
 				units.append(Unit(uid, p, 'grouping'))
 				uid += 1
+		if ctx.shard == 0:
+			from vf.gen.typed import Entry, Program, INT
+			units.append(Unit(uid, Program(WITNESS_RANGE_BOUND, [Entry('bound', [('n', INT)], INT, [[3], [7]])], {}, {}, set(), []), 'witness-range-bound'))
+			uid += 1
 		n = N_PROGRAMS[ctx.tier]
 		for i in range(n):
 			if not ctx.mine(i):
